@@ -77,10 +77,26 @@ def free_exec(chk, repo, f, sym):
         (set(), {2000, 2001, 2002}, [2000, 2001, 2000, 2002, 2001, 2003]),
         ({29999}, {1000}, [29999, 1000, 30000]),
     ]
+    if chk.tier == "thorough":
+        # small-scope exhaustive: every draw sequence of up to 4 draws over
+        # three addresses (and a fourth, free one at the end) for every
+        # choice of used and answering addresses among them
+        import itertools
+        abc = (11, 12, 13)
+        subsets = [set(c) for k in range(4)
+                   for c in itertools.combinations(abc, k)]
+        for k in range(0, 5):
+            for seq in itertools.product(abc, repeat=k):
+                for u_ in subsets:
+                    for o_ in subsets:
+                        if u_ & o_:
+                            continue    # a used address was probed before
+                        scen.append((set(u_), set(o_), list(seq) + [14]))
     bad = []
     n = 0
     for used0, occ, draws in scen:
-        for rng in ((1000, 30000), (7, 99)):
+        for rng in ((1000, 30000), (7, 99)) if len(scen) < 100 else (
+                (7, 99),):
             n += 1
             used = set(used0)
             todo = list(draws)
